@@ -9,7 +9,7 @@ CHECKS = {
    tech="round-trip property-based testing (proptest) + coverage-guided fuzzing (libFuzzer, arbitrary-decoded datasets) with the oracle in the target"),
 
  "C16": dict(cat="exploration",
-   text="totality: 14 public parsers per input under catch_unwind, acceptance must consume the whole input for the three whole-request parsers; inputs = exhaustive sweep of every char offset of a 166-request corpus (from the repo's tests/examples) x {6 multi-byte insertions, delete, duplicate token, truncate}, token-level mutations of generated queries, deep nesting ({ / << / ( x 10^2..10^5) in a child process on a 2 MiB-stack thread, a history part (a valid request re-parsed after each of 1-12 hostile inputs on the same fresh thread must give the same tree), and (thorough) a libFuzzer campaign with the same oracle in the target; faithfulness: generated SELECT/update syntax trees printed twice with independent layout choices (whitespace, # comments, keyword case, ?x/$x, optional WHERE, ./;/, abbreviations, quote forms, prefixed names) and the parsed AST compared structurally with the tree and between the two printings",
+   text="totality: 14 public parsers per input under catch_unwind, acceptance must consume the whole input for the three whole-request parsers; inputs = exhaustive sweep of every char offset of a 166-request corpus (from the repo's tests/examples) x {6 multi-byte insertions, delete, duplicate token, truncate}, token-level mutations of generated queries, deep nesting and long runs ({ << ( ! - UNION chains, sub-SELECTs, CONCAT arguments x 10^2..10^5) in a child process on a 2 MiB-stack thread, a history part (a valid request re-parsed after each of 1-12 hostile inputs on the same fresh thread must give the same tree), and (thorough) a libFuzzer campaign with the same oracle in the target; faithfulness: generated SELECT/update syntax trees printed twice with independent layout choices (whitespace, # comments, keyword case, ?x/$x, optional WHERE, ./;/, abbreviations, quote forms, prefixed names) and the parsed AST compared structurally with the tree and between the two printings",
    note="trusted: documented AST normal form of shared::query with the merge-adjacent-BGP / one-member-group normalisation on both sides; harness tokeniser for raw operand slices; stack exhaustion observed as death of a child whose parser thread has a 2 MiB stack; layout restricted to what the code and tests accept",
    tech="property-based round-trip testing (proptest) + exhaustive mutation sweep + coverage-guided fuzzing (libFuzzer) with an in-target oracle"),
 
@@ -62,7 +62,7 @@ CHECKS = {
    note="trusted: bit-level Boolean-function oracle sharing nothing with sdd.rs; group WMC compared only on h AND exactly_one(G) for all registered groups; same result = same handle on the same manager + same canonical structure on the twin manager; <=8 variables, <=80 operations, one interrupted operation per history",
    tech="model-based property testing (proptest) + bounded exhaustive enumeration + exhaustive interruption-point enumeration through the injectable budget callback"),
  "C17": dict(cat="exploration",
-   text="generated and mutated request strings (SELECTs, all six update forms, legacy aliases, RULE/REGISTER texts, requests with an extension clause (RULE / RETRIEVE) in front of their SELECT or update operation, numeric escapes in every place an IRI is lexed, garbage; multi-byte insertion, delimiter insertion, deletion, token duplication, truncation) x generated datasets x every string entry point incl. HTTP adapters; lexical snapshot (quads + catalog) unchanged around every query-path call and every Err, Err for everything the parser rejects and for update syntax on the query path, Ok for well-formed SELECTs, no panic; plus an exhaustive sweep of every char-boundary offset of 20 corpus requests x 6 multi-byte characters; thorough: 6 parallel libFuzzer jobs x 60 000 executions of the same oracle (target request_total), crash files re-judged on the stable build",
+   text="generated and mutated request strings (SELECTs, all six update forms, legacy aliases, RULE/REGISTER texts, requests with an extension clause (RULE / RETRIEVE) in front of their SELECT or update operation, numeric escapes in every place an IRI is lexed, garbage; multi-byte insertion, delimiter insertion, deletion, token duplication, truncation) x generated datasets x every string entry point incl. HTTP adapters; lexical snapshot (quads + catalog) unchanged around every query-path call and every Err, Err for everything the parser rejects and for update syntax on the query path, Ok for well-formed SELECTs, no panic; plus an exhaustive sweep of every char-boundary offset of 20 corpus requests x 6 multi-byte characters; a deep-requests part (requests with 200 / 5 000 / 100 000 levels or repetitions of { ( ! - sub-SELECT, also in update WHERE clauses, sent to the three error-preserving entry points on a 2 MiB-stack thread of a child process that must survive); thorough: 6 parallel libFuzzer jobs x 60 000 executions of the same oracle (target request_total), crash files re-judged on the stable build",
    note="trusted: parse_combined_query as the classifier of what is an update / malformed; snapshot through all_quads + named_graphs; TRAIN/ML execution requests are not generated",
    tech="property-based testing with string mutation (proptest) + exhaustive offset sweep + coverage-guided fuzzing (libFuzzer) with the snapshot-equality oracle in the target"),
  "C19": dict(cat="exploration",
